@@ -454,6 +454,7 @@ func anywhere(r rune, p *Parser) stateFn {
 			p.exit()
 			p.exit = nil
 		}
+		p.ignoreST = false
 		p.execute(r)
 		return ground
 	case r == 0x1B:
@@ -466,6 +467,7 @@ func anywhere(r rune, p *Parser) stateFn {
 			p.emit(C0(0x1B))
 			p.mu.Lock()
 			p.state = ground
+			p.ignoreST = false
 			p.mu.Unlock()
 		})
 		return escape
@@ -963,6 +965,7 @@ func oscString(r rune, p *Parser) stateFn {
 	case r == 0x07:
 		p.exit()
 		p.exit = nil
+		p.ignoreST = false
 		return ground
 	case in(r, 0x00, 0x17), r == 0x19, in(r, 0x1C, 0x1F):
 		// ignore
